@@ -35,9 +35,9 @@ CLAIMS = {
          "7/C09", "contract postconditions; three code branches must each establish the same formula"),
  'C10': ("QuoInteger and Rem contracts (truncated quotient, remainder with the dividend's sign, DivisionImpossible guard) and the division identity as a lemma over the two contracts.",
          "7/C10", "contract postconditions plus a lemma over contracts"),
- 'C13': ("Partial, and labelled so: of the five clauses of the property only 'Compose(Decompose(d)) reproduces d' is decided. Decompose is proved to hand out parts that denote the decimal (form code, sign, exponent, and a coefficient slice whose big-endian value beval is the coefficient, on both the FillBytes and the Bytes path), Compose to install exactly the parts it is given (NaN quiet, infinities and NaNs with cleared coefficient and exponent, error iff the form code is unknown), BigInt.Bytes/FillBytes/SetBytes against assumed math/big contracts over the same uninterpreted beval; MarshalText's bytes are the specified text (see C14). The text round trips through the parser and SetFloat64/Float64 are NOT decided by this check (the parser's value semantics is not under contract; floats are not modelled): a change that only breaks those is not detected.",
-         "7/C13", "contract postconditions over an uninterpreted big-endian value function of byte slices (weakest-precondition VCs over go/ssa, z3/cvc5)"),
- 'C14': ("The formatting half is decided for every decimal and every verb: Decimal.Append (and through it Text, String, MarshalText) is proved to produce exactly the bytes of a specification written from the property text - sign, NaN/sNaN/Infinity, plain notation iff exponent <= 0 and adjusted exponent >= -6 or a zero with exponent in [-2000,-1], otherwise one digit, optional fraction, E, a signed adjusted exponent; 'e'/'E' always scientific, 'f' always plain, unknown verbs as %x - over the decimal text of the coefficient and of the exponent (loop invariants for the zero padding, all buffer capacities, in place or reallocated). The digits themselves are math/big's and strconv's (assumed: uf_dchar(v, k) is the k-th character of the decimal text of v). The parsing half (acceptance set of SetString/NewFromString/UnmarshalText/Scan, no partial value) and Format's flags and width are NOT decided: only that a successful parse is well formed, that the mantissa carries no second sign and that the digit count handed to setExponent is the coefficient's.",
+ 'C13': ("Decided by contracts on the real formatter and parser: (1) String/Text('G','g','E','e')/MarshalText write exactly the specified text (C14) and that text satisfies the hypothesis FinText/SpecText; (2) setString - and through their own contracts Context.SetString, NewFromString, Decimal.SetString, Context.NewFromString, UnmarshalText - given a text satisfying FinText(s, neg, C, E) (plain notation with exponent <= 0, or scientific with E or e) for a value inside the exponent limits returns no error and exactly form Finite, sign neg, coefficient C, exponent E; given the text of an infinity or a (signalling, negative) NaN exactly that form and sign. The denoted decimal enters the parser's contract as ghost (universally quantified) variables; the two number parsers are used through assumed contracts over a numeral vocabulary (a text that is the decimal text of n behind leading zeros, or a sign and the decimal text of n, is a numeral of that value - the inverse of what strconv.AppendInt and big.Int.Append write). (3) Compose/Decompose and the byte conversions over the uninterpreted big-endian value beval. One open finding: Text('E'/'e') of a coefficient longer than 100001 digits does not parse back (known_findings.json). Not decided: Text('f') numeric round trip for positive exponents, Value/Scan (interfaces), the fmt verbs (fmt.State), SetFloat64/Float64 (floats); the composition parse(format(d)) == d is two contracts whose conclusion and hypothesis match, not a single machine-checked lemma.",
+         "7/C13", "contract postconditions with ghost variables and segment predicates over byte slices and strings (weakest-precondition VCs over go/ssa, z3 e-matching); assumed numeral contracts for strconv/math-big parsers"),
+ 'C14': ("The formatting half is decided for every decimal and every verb: Decimal.Append (and through it Text, String, MarshalText) is proved to produce exactly the bytes of a specification written from the property text - sign, NaN/sNaN/Infinity, plain notation iff exponent <= 0 and adjusted exponent >= -6 or a zero with exponent in [-2000,-1], otherwise one digit, optional fraction, E, a signed adjusted exponent; 'e'/'E' always scientific, 'f' always plain, unknown verbs as %x - over the decimal text of the coefficient and of the exponent (loop invariants for the zero padding, all buffer capacities, in place or reallocated). The digits themselves are math/big's and strconv's (assumed: uf_dchar(v, k) is the k-th character of the decimal text of v). Of the parsing half one direction is decided (under C13): every text the formatter writes for a value inside the limits is accepted with exactly that value. NOT decided: that everything outside the grammar is rejected, grammatical texts the formatter never writes, 'no partial value', Format's flags and width; about arbitrary texts only: a successful parse is well formed, the mantissa carries no second sign, the digit count handed to setExponent is the coefficient's.",
          "7/C14", "byte-level contracts with segment predicates (quantified array facts with explicit triggers) over go/ssa VCs, z3 e-matching"),
  'C15': ("Decimal.Cmp equals the sign of the exact difference on all three code paths (equal exponents, digit-count shortcut, rescaled comparison); CmpTotal against a lexicographic specification; order lemmas over the specification (reflexive, antisymmetric, transitive via a magnitude-rescaling lemma, class order, zero iff identical).",
          "7/C15", "contract postconditions with pow10 lemma hints; order lemmas as pure SMT goals"),
